@@ -61,9 +61,12 @@ def main():
             env["PYTHONWARNINGS"] = "ignore"
             src = open(demo).read()
             # the demo may hard-code the agent's worktree path
-            src2 = re.sub(r"/tmp/w[t2]_C\d\d", wt, src)
+            src2 = re.sub(r"/tmp/w[t0-9]_C\d\d", wt, src)
             dpath = os.path.join(wt, "_demo.py")
             open(dpath, "w").write(src2)
+            helpers = [f for f in os.listdir(outdir) if f.endswith(".py") and not re.fullmatch(r"demo_\d+\.py", f)]
+            for f in helpers:  # helper modules the demos import
+                shutil.copy(os.path.join(outdir, f), os.path.join(wt, f))
             rc_clean, out_clean = sh([PY, dpath], cwd=wt, env=env, timeout=1200)
             rc, o = sh(["git", "-C", wt, "apply", diff])
             if rc != 0:
@@ -87,6 +90,8 @@ def main():
             os.makedirs(dst)
             shutil.copy(diff, os.path.join(dst, "patch.diff"))
             open(os.path.join(dst, "demo.py"), "w").write(src)
+            for f in helpers:
+                shutil.copy(os.path.join(outdir, f), os.path.join(dst, f))
             if os.path.exists(notes):
                 shutil.copy(notes, os.path.join(dst, "notes.md"))
             meta = {
